@@ -27,12 +27,10 @@ func (o *OperatorPartition) OwnsKey(key []byte) bool {
 }
 
 func (o *OperatorPartition) ExclusivelyOwnsTable(uri string, startKey []byte, endKey []byte) (bool, error) {
-	// If this partition owns the entire key range then there's no need to check
-	// other operators.
-	otherRange := partitioning.KeyGroupRangeFromBytes(startKey[:2], endKey[:2])
-	if o.keyGroupRange.Contains(otherRange) {
-		return true, nil
-	}
+	// Neighbors must be asked even when this partition owns the table's entire
+	// key range: an operator loads every table of the checkpoints assigned to it,
+	// including tables whose keys now belong to a neighbor, and keeps them in its
+	// level list until they are compacted away.
 
 	// Setup context to race the NeedsTable calls.
 	ctx, cancel := context.WithCancel(context.Background())
@@ -80,17 +78,8 @@ type neighborPartition struct {
 }
 
 func (o *neighborPartition) NeedsTable(ctx context.Context, filePath string, startKey []byte, endKey []byte) (bool, error) {
-	// Derive the key group range from the start and end keys of a table.
-	tableKeyGroupRange := partitioning.KeyGroupRange{
-		Start: int(partitioning.KeyGroupFromBytes(startKey[:2])),
-		End:   int(partitioning.KeyGroupFromBytes(endKey[:2])) + 1,
-	}
-
-	// If the neighboring operator's key group range doesn't intersect with the
-	// table's key range then we don't need to ask if it needs the table.
-	if !o.keyGroupRange.Overlaps(tableKeyGroupRange) {
-		return false, nil
-	}
-
+	// The neighbor has to be asked even if its key group range doesn't intersect
+	// with the table's key range: it may have loaded the table as part of a
+	// checkpoint that it was assigned.
 	return o.operator.NeedsTable(ctx, filePath)
 }
